@@ -88,6 +88,11 @@ def construct(D, user, rng_seed=0, geom="linear", row=False, x0_kind="inside"):
     return b, mutated, dict_changed
 
 
+# options that `_init_optimization_` / `_init_mesh_` deliberately rescale from the supplied value when the target is noisy (bads.py l.1050-1076, l.962)
+NOISY_RESCALED = ("tol_stall_iters", "n_train_max", "n_train_min", "mesh_overflow_warning", "min_failed_poll_steps", "mesh_noise_multiplier",
+                  "noise_final_samples", "max_fun_evals", "fun_eval_start")
+
+
 def mutable_values_through_a_run(ctx, rep):
     """User options whose values are mutable objects (lists, arrays) shared by the caller's dict and by several instances built from it:
     running one instance must leave the caller's dict, its own options and the other instance's options exactly as supplied."""
@@ -99,6 +104,16 @@ def mutable_values_through_a_run(ctx, rep):
     # ... and falsy scalar values that are legitimate settings (0 samples, noise size 0, switches off), in the noise mode that reads them
     variants += [{"noise_size": 0, "specify_target_noise": True, "uncertainty_handling": True}, {"noise_final_samples": 0, "uncertainty_handling": True},
                  {"accelerate_mesh": False, "nonlinear_scaling": False, "complete_poll": False}]
+    # every float-valued option supplied as a 0-d NumPy array holding its default value (a caller that computes its settings with NumPy), with three
+    # ES iterations per search so that the strategies' adaptation steps run; deterministic and declared-noisy
+    try:
+        b0 = BADS(lambda x: 0.0, np.full(2, 0.3), np.full(2, -4.0), np.full(2, 6.0), np.full(2, -2.0), np.full(2, 3.0), options={"display": "off"})
+        basic, adv = files()
+        arr = {k: np.array(float(b0.options[k])) for k, _ in basic + adv
+               if isinstance(b0.options[k], (float, np.floating)) and not isinstance(b0.options[k], bool) and np.isfinite(b0.options[k])}
+        variants += [dict(arr, n_search_iter=3), dict(arr, n_search_iter=3, uncertainty_handling=True)]
+    except Exception:
+        pass
     for v in variants:
         D = rng.choice([1, 2])
         noisy = bool(v.get("uncertainty_handling"))
@@ -122,6 +137,8 @@ def mutable_values_through_a_run(ctx, rep):
         for k in v:
             if not same(user[k], keep[k]):
                 rep.violation("caller_dict_untouched", "bads.py / search_hedge.py (during optimize)", f"running an instance changed the caller's options dict: {k} = {user[k]!r}, supplied {keep[k]!r}", case)
+            elif noisy and k in NOISY_RESCALED:
+                pass        # documented run-time adjustment of the instance's OWN setting for noisy targets (the supplied value is the input of the rescaling)
             elif not same(a.options[k], keep[k]):
                 rep.violation("user_value_kept", "options.py", f"after the run the instance's own option {k} = {a.options[k]!r} differs from the supplied {keep[k]!r}", case)
             elif not same(b.options[k], keep[k]):
